@@ -3,6 +3,7 @@ import Cvise.Drv.Matcher
 import Cvise.Drv.Driver
 import Cvise.Drv.PassGroup
 import Cvise.Drv.Passes
+import Cvise.Drv.Clex
 open Cvise.Drv
 
 def dispatch (line : String) : String :=
@@ -15,6 +16,7 @@ def dispatch (line : String) : String :=
   | "drv" :: _ => handleDrv line
   | "group" :: _ => handleGroup line
   | "pass" :: args => handlePass args
+  | "clex" :: args => handleClex args
   | _ => "bad-op"
 
 partial def loop (h : IO.FS.Stream) (out : IO.FS.Stream) : IO Unit := do
